@@ -22,7 +22,7 @@ from harness.common.shrink import ddmin
 from harness.props.c13_facts import facts  # noqa: F401  (translator entry point)
 
 PROP = "C13"
-DRIVER_MODULES = ["PsutilModel.Model.C13Gen", "PsutilModel.Spec.C13"]
+DRIVER_MODULES = ["PsutilModel.Model.C13Gen", "PsutilModel.Spec.C13", "PsutilModel.Spec.C13Bind"]
 NEEDS_EXT = True
 TRUSTED = [
     "C13 kernel-side renderers (Spec/C13.lean renderStatm/renderSmaps/renderRollup): transcriptions of fs/proc/task_mmu.c and array.c; validated on every run by re-rendering the harness process's own /proc/self/smaps, smaps_rollup header and statm byte-for-byte",
@@ -30,6 +30,7 @@ TRUSTED = [
     "C13 path_exists_strict is a parameter of the model (present / missing / PermissionError); the harness patches it with a table (plus a few cases on real files)",
     "C13 floats: memory_percent is compared with the exact rational 100*value/total at relative tolerance 1e-12",
     "C13 /proc/meminfo renderer (Spec/C13.lean renderMeminfo = the smaps key-line shape `show_val_kb`): validated on every run by re-rendering the live /proc/meminfo byte-for-byte; only `.total` of virtual_memory() is modelled here (the other svmem fields are C06's)",
+    "C13 procfs trees (family rebind): a procfs tree is a directory psutil.PROCFS_PATH is pointed at; the trees of one history hold the same system-wide stat / meminfo (MemTotal 0: memory_percent's total is always the given psutil._TOTAL_PHYMEM) and differ in what <pid>/ holds; the files of a tree do not change during a history (so block caches are invisible and `enter` / `exit` are identities in the model)",
     "C13 call modes: the harness decides which files may be overwritten inside a warm oneshot() block (see ASSUMPTIONS); process_iter() is driven over the fake procfs (one pid directory)",
 ]
 ASSUMPTIONS = [
@@ -38,10 +39,11 @@ ASSUMPTIONS = [
     "the VmFlags line lists at least one mnemonic; a key line has a number (a bare `Key:` line raises IndexError in psutil; no kernel prints one)",
     "a roll-up rendered FROM the mappings is their field-wise kB sum (C13_rollup_agrees); the real kernel keeps sub-kB precision and prints keys of its own (Pss_Anon/Pss_File/Pss_Shmem): covered by the roll-up-record families (ANY roll-up content, C13_rollup_record / C13_full_info_from_rollup; the live /proc/self/smaps_rollup is re-rendered byte-for-byte on every run) and characterised by C13_rollup_subkb_bound",
     "/proc/meminfo prints every label once and always prints MemTotal and MemFree; /proc/zoneinfo is absent from the fake procfs (virtual_memory's MemAvailable fall-back then cannot raise)",
+    "a Process object stands for the process that had its pid under the procfs tree psutil.PROCFS_PATH pointed at when the object was CREATED (psutil documents: set PROCFS_PATH, then create the objects; _pslinux.Process.__init__ captures the root); which tree memory_percent's TOTAL is read from after a re-pointing is not claimed (the rebind family always gives the total through psutil._TOTAL_PHYMEM); objects handed out by process_iter() across a re-pointing are C01/C05's subject",
     "inside a oneshot() block the answer is that of the first read of a block-cached source (front-end memory_info; _read_smaps_file): the harness overwrites statm / smaps only after such a read succeeded, and never smaps_rollup or (for memory_full_info) statm, which are re-read by design",
 ]
 MANIFEST = {
-    "level_text": "Machine-checked Lean 4 proofs over a model of _pslinux.Process.memory_info / _parse_smaps_rollup / _parse_smaps / memory_full_info / memory_maps, the front-end grouping fold, memory_percent together with the module cache _TOTAL_PHYMEM, and the /proc/meminfo loop of virtual_memory(), against kernel-side renderers of statm, smaps, smaps_rollup and meminfo: C13_statm (round trip for every statm record and page size), C13_maps_roundtrip (memory_maps(renderSmaps ms) = map specRow ms for EVERY list of well-formed mappings: any number, repeated and adversarial paths with spaces/colons/' (deleted)'/key-like names, anonymous mappings, optional lines, values of any size), C13_maps_nonuniform_exact + C13_maps_right_iff_no_stale_key (what the never-cleared dict of get_blocks does when mappings print different key lists, and exactly which files it gets right; C13_uniform_keys_never_stale: all kernel-reachable ones), C13_full_info_sums, C13_rollup_agrees, C13_rollup_record + C13_full_info_from_rollup (EVERY roll-up content as a record of its own: any key lines, keys only the roll-up prints, any values), C13_rollup_subkb_bound (kernel-side characterisation: the roll-up's Pss exceeds the per-mapping sum by less than 1 kB per mapping), C13_rollup_fallback (+ C13_rollup_wrapped_counterexample: false for a _parse_smaps_rollup carrying @wrap_exceptions; obligation cfg_good.rollupWrapped, decorator_facts pins the decorator table), C13_regex_line_anchored (_parse_smaps as written — three re.findall over the WHOLE text, modelled by a backtracking regex matcher compiled from the pattern texts — equals the line-anchored reading of its patterns on EVERY rendered file; C13_findall_is_line_anchored is the general criterion for any text, C13_regex_crosses_newline the proved witness where they differ off the kernel's format), C13_grouped_conservation (finite-map equality with field-wise sums, one row per distinct path), C13_percent, C13_meminfo_total, C13_percent_end_to_end (from the texts of statm, smaps and meminfo, every pfullmem field), C13_percent_last_read (every history of meminfo rewrites / virtual_memory() / memory_percent(): 100*field / the total psutil last read), C13_percent_cached_total, C13_percent_history, C13_percent_constant_total (MemTotal the same at every read: every answer is 100*field/(1024*MemTotal), and the last-read and current-total readings coincide), C13_bad_memtype_ValueError, C13_empty_smaps, plus proved counterexamples (file name ending in a blank for the code that strips the path; non-uniform key sets; the cache characterised beyond the property: after MemTotal changed the answer stays relative to the total last read — C13_percent_stale_total_counterexample, by design, not a defect). Tied to the code by ~40 translator facts (incl. the three pattern texts compiled by the Lean regex model and the decorator table of the anchored methods) feeding the proof obligations cfg_good / pcfg_good / cfg_dict_once / decorator_facts and by a differential run of the real front-end methods over a fake procfs rendered by the Lean renderers, both roll-up variants, every method reached in 8 call modes (plain, fresh object, oneshot(), warm oneshot() with the world changed after the first read, as_dict(), process_iter()'s object, second call, call after the files held other content).",
+    "level_text": "Machine-checked Lean 4 proofs over a model of _pslinux.Process.memory_info / _parse_smaps_rollup / _parse_smaps / memory_full_info / memory_maps, the front-end grouping fold, memory_percent together with the module cache _TOTAL_PHYMEM, and the /proc/meminfo loop of virtual_memory(), against kernel-side renderers of statm, smaps, smaps_rollup and meminfo: C13_statm (round trip for every statm record and page size), C13_maps_roundtrip (memory_maps(renderSmaps ms) = map specRow ms for EVERY list of well-formed mappings: any number, repeated and adversarial paths with spaces/colons/' (deleted)'/key-like names, anonymous mappings, optional lines, values of any size), C13_maps_nonuniform_exact + C13_maps_right_iff_no_stale_key (what the never-cleared dict of get_blocks does when mappings print different key lists, and exactly which files it gets right; C13_uniform_keys_never_stale: all kernel-reachable ones), C13_full_info_sums, C13_rollup_agrees, C13_rollup_record + C13_full_info_from_rollup (EVERY roll-up content as a record of its own: any key lines, keys only the roll-up prints, any values), C13_rollup_subkb_bound (kernel-side characterisation: the roll-up's Pss exceeds the per-mapping sum by less than 1 kB per mapping), C13_rollup_fallback (+ C13_rollup_wrapped_counterexample: false for a _parse_smaps_rollup carrying @wrap_exceptions; obligation cfg_good.rollupWrapped, decorator_facts pins the decorator table), C13_regex_line_anchored (_parse_smaps as written — three re.findall over the WHOLE text, modelled by a backtracking regex matcher compiled from the pattern texts — equals the line-anchored reading of its patterns on EVERY rendered file; C13_findall_is_line_anchored is the general criterion for any text, C13_regex_crosses_newline the proved witness where they differ off the kernel's format), C13_grouped_conservation (finite-map equality with field-wise sums, one row per distinct path), C13_percent, C13_meminfo_total, C13_percent_end_to_end (from the texts of statm, smaps and meminfo, every pfullmem field), C13_percent_last_read (every history of meminfo rewrites / virtual_memory() / memory_percent(): 100*field / the total psutil last read), C13_percent_cached_total, C13_percent_history, C13_percent_constant_total (MemTotal the same at every read: every answer is 100*field/(1024*MemTotal), and the last-read and current-total readings coincide), C13_bad_memtype_ValueError, C13_empty_smaps, plus proved counterexamples (file name ending in a blank for the code that strips the path; non-uniform key sets; the cache characterised beyond the property: after MemTotal changed the answer stays relative to the total last read — C13_percent_stale_total_counterexample, by design, not a defect). Histories over SEVERAL procfs trees (psutil.PROCFS_PATH re-pointed between the construction of an object and its calls; same pid present with another process, or absent, in the other trees): C13_figures_describe_the_bound_process (every answer is computed from statm, smaps and smaps_rollup of the ONE tree the object was created under, wherever PROCFS_PATH points at call time), C13_history_figures (… and equals the promised figures of that process's records), obligation bcfg_good (the root expression of every read site is self._procfs_path, captured once in __init__), C13_smaps_from_current_root_counterexample. Tied to the code by ~40 translator facts (incl. the three pattern texts compiled by the Lean regex model and the decorator table of the anchored methods) feeding the proof obligations cfg_good / pcfg_good / cfg_dict_once / decorator_facts and by a differential run of the real front-end methods over a fake procfs rendered by the Lean renderers, both roll-up variants, every method reached in 8 call modes (plain, fresh object, oneshot(), warm oneshot() with the world changed after the first read, as_dict(), process_iter()'s object, second call, call after the files held other content), plus a family of histories over 2-3 procfs trees (PROCFS_PATH assignments / constructions / oneshot() blocks / calls in 4 call modes).",
     "level_note": "Trusted: Lean kernel + {propext, Classical.choice, Quot.sound}; the translator; the correspondence harness; the kernel renderers (smaps, statm, meminfo validated against the live kernel each run, incl. the uniform-key-list hypothesis); Python's int/split/strip; Python's re modelled by a small backtracking matcher for the fragment the three patterns use (its agreement with sre is exercised by the correspondence, not proved); well-formed names are hypotheses; the property does not quantify over a MemTotal that changes between calls: with the module cache memory_percent is specified relative to the total last read (C13_percent_last_read); that this is not the current total after a change is documented as a characterisation, not a defect.",
     "technique": "Lean 4 round-trip and conservation proofs (induction over mapping lists, lines, regex backtracking and call histories) + translator-fed proof obligations + differential correspondence over rendered procfs content in several call modes",
     "design_ref": "DESIGN.md §5 C13",
@@ -417,6 +419,143 @@ def mutate_raw(rng, smaps, statm, rollup):
     return what, out, statm, rollup
 
 
+
+# ------------------------------------------------------------------------------ several procfs trees (family "rebind")
+# psutil.PROCFS_PATH is re-pointed between the construction of a Process object and its calls: the world is a list of
+# procfs trees ("roots": the host's /proc, a container's, another PID namespace …), each holding — or not — a process with
+# the SAME pid; an object must keep describing the process of the tree it was created under (C13_figures_describe_the_bound_process)
+BIND_FAMILIES = ["basic", "repeat", "single", "adversarial", "optional", "rollup_record", "deleted", "trailing", "empty", "basic"]
+BIND_MODES = ["plain", "oneshot", "twice", "as_dict"]
+BIND_METHODS = ["info", "full", "maps", "grouped", "pct"]
+BIND_TOTALS = [2**30, 16 * 2**30, 1, 2**53 + 1, 8_000_000_000, -5, None, 0]
+
+
+def _bind_root(c, has_rollup):
+    """a generated single-process case reduced to what one procfs tree holds"""
+    r = {k: c[k] for k in ("op", "ms", "statm", "pagesize", "zombie", "rollup", "probe") if k in c}
+    r["hasRollup"] = has_rollup
+    r["pct"] = []
+    for k in ("rollupKV", "rollupHow"):
+        if k in c:
+            r[k] = c[k]
+    return r
+
+
+def bind_call(rng, k, method=None, mode=None):
+    m = method or rng.choice(BIND_METHODS)
+    st = {"op": "call", "k": k, "m": m}
+    if m == "pct":
+        st["memtype"] = rng.choice(PFULL_NAMES) if rng.random() < 0.85 else rng.choice(bad_memtypes())
+        st["total"] = rng.choice(BIND_TOTALS)
+    mode = mode or rng.choice(BIND_MODES)
+    st["mode"] = mode if mode_ok(m, mode, st.get("memtype")) else rng.choice(["plain", "oneshot", "twice"])
+    return st
+
+
+def gen_bind_steps(rng, roots):
+    present = [i for i, c in enumerate(roots) if c is not None]
+    steps, objs, opened = [], [], set()
+    cur = 0
+
+    def point(r):
+        nonlocal cur
+        steps.append({"op": "point", "r": r})
+        cur = r
+
+    def new():
+        steps.append({"op": "new"})
+        if roots[cur] is not None:
+            objs.append(cur)
+
+    point(rng.choice(present))
+    new()
+    for _ in range(rng.randrange(3, 12)):
+        r = rng.random()
+        if r < 0.3:
+            point(rng.randrange(len(roots)))
+        elif r < 0.42:
+            new()
+        elif r < 0.52 and objs:
+            k = rng.randrange(len(objs))
+            if k in opened:
+                opened.discard(k)
+                steps.append({"op": "exit", "k": k})
+            else:
+                opened.add(k)
+                steps.append({"op": "enter", "k": k})
+        elif objs:
+            steps.append(bind_call(rng, rng.randrange(len(objs))))
+    # always: a call on an object while PROCFS_PATH points somewhere else than where the object was created
+    k = rng.randrange(len(objs))
+    others = [i for i in range(len(roots)) if i != objs[k]]
+    point(rng.choice(others))
+    for m in rng.sample(BIND_METHODS, rng.randrange(1, 4)):
+        steps.append(bind_call(rng, k, m))
+    for k in sorted(opened):
+        steps.append({"op": "exit", "k": k})
+    return steps
+
+
+def gen_bind(rng, has_rollup_default):
+    n = rng.choice([2, 2, 3])
+    has = has_rollup_default if rng.random() < 0.5 else (rng.random() < 0.5)
+    roots, probe = [], {}
+    for i in range(n):
+        if i > 0 and rng.random() < 0.2:
+            roots.append(None)
+            continue
+        c = gen_case(rng, rng.choice(BIND_FAMILIES), has)
+        for k, v in c["probe"]:
+            probe.setdefault(k, v)
+        roots.append(_bind_root(c, has))
+    merged = [[k, v] for k, v in sorted(probe.items())]
+    for c in roots:
+        if c is not None:
+            c["probe"] = merged
+    return {"op": "bind", "family": "rebind", "roots": roots, "steps": gen_bind_steps(rng, roots), "hasRollup": has,
+            "probe": merged, "pagesize": 0}
+
+
+def bind_corpus(impl):
+    """clause-directed histories: the object is created under tree 0 and asked while PROCFS_PATH points at tree 1, which holds
+    ANOTHER process with the same pid (all five methods, every call mode), or no such pid at all; the per-mapping listing as
+    the fall-back source (roll-up ENOENT / ESRCH / no roll-up support); a oneshot() block entered before the re-pointing"""
+    cs = corpus(impl)
+    a = _bind_root(cs[1], True)                       # three mappings, a repeated adversarial path
+    b = _bind_root(cs[9], True)                       # one mapping, huge values
+    b["statm"] = [5000, 1000, 250, 1024, 0, 99, 0]
+    out = []
+    for other in ("process", "absent"):
+        for has in (True, False):
+            for roll_a in ("data", "enoent", "esrch"):
+                for block in (False, True):
+                    ra, rb = json.loads(json.dumps(a)), json.loads(json.dumps(b))
+                    ra["hasRollup"] = rb["hasRollup"] = has
+                    ra["rollup"] = roll_a
+                    roots = [ra, rb if other == "process" else None]
+                    steps = [{"op": "point", "r": 0}, {"op": "new"}]
+                    if block:
+                        steps.append({"op": "enter", "k": 0})
+                    steps.append({"op": "point", "r": 1})
+                    for m in BIND_METHODS:
+                        for mode in BIND_MODES:
+                            for mt in (("rss", "pss") if m == "pct" else (None,)):
+                                if not mode_ok(m, mode, mt):
+                                    continue
+                                st = {"op": "call", "k": 0, "m": m, "mode": mode}
+                                if m == "pct":
+                                    st.update({"memtype": mt, "total": 2**34})
+                                steps.append(st)
+                    steps += [{"op": "new"}, {"op": "call", "k": 1, "m": "maps", "mode": "plain"},
+                              {"op": "point", "r": 0}, {"op": "call", "k": 1, "m": "full", "mode": "plain"},
+                              {"op": "call", "k": 0, "m": "maps", "mode": "plain"}]
+                    if block:
+                        steps.append({"op": "exit", "k": 0})
+                    out.append({"op": "bind", "family": "exhaustive-rebind", "roots": roots, "steps": steps, "hasRollup": has,
+                                "probe": [], "pagesize": 0})
+    return out
+
+
 # ------------------------------------------------------------------------------ implementation side
 
 def _stat_line(pid, state):
@@ -621,6 +760,134 @@ class Impl:
             lx.HAS_PROC_SMAPS_ROLLUP = self.flag0
         return out
 
+    def run_bind(self, case, drv_out):
+        """several procfs trees, psutil.PROCFS_PATH re-pointed during the history. Returns one observable per step."""
+        ps, lx = self.ps, self.lx
+        fakeproc.reset_psutil_state(ps)
+        pid = PID
+        base = tempfile.mkdtemp(prefix="psv-c13-bind-")
+        saved = ps.PROCFS_PATH
+        roots, esrch = [], []
+        for i, (c, ro) in enumerate(zip(case["roots"], drv_out["roots"])):
+            d = os.path.join(base, "r%d" % i)
+            os.makedirs(d)
+            with open(os.path.join(d, "stat"), "w") as f:
+                f.write("cpu  1 2 3 4 5 6 7 8 9 10\ncpu0 1 2 3 4 5 6 7 8 9 10\nbtime 1700000000\n")
+            with open(os.path.join(d, "meminfo"), "w") as f:
+                f.write(MEMINFO % 0)
+            if c is not None:
+                files = {k: bytes.fromhex(v) for k, v in ro["files"].items()}
+                pd = os.path.join(d, str(pid))
+                os.makedirs(pd)
+                with open(os.path.join(pd, "stat"), "w") as f:
+                    f.write(_stat_line(pid, "Z" if c["zombie"] else "S"))
+                for name, key in (("statm", "statm"), ("smaps", "smaps")) + ((("smaps_rollup", "rollup"),) if c["rollup"] != "enoent" else ()):
+                    with open(os.path.join(pd, name), "wb") as f:
+                        f.write(files[key])
+                if c["rollup"] == "esrch":
+                    esrch.append(pd + "/")
+            roots.append(d)
+        esrch = tuple(esrch)
+        table = {bytes.fromhex(k): v for k, v in case["probe"]}
+
+        def exists(path):
+            st = table.get(os.fsencode(path), "missing")
+            if st == "denied":
+                raise PermissionError(errno.EACCES, "Permission denied", path)
+            return st == "present"
+
+        def open_binary(fname, _o=self.orig_open):
+            if esrch and fname.endswith("/smaps_rollup") and fname.startswith(esrch):
+                raise ProcessLookupError(errno.ESRCH, "No such process", fname)
+            return _o(fname)
+
+        SENT = object()
+
+        def call(p, st):
+            m, mode = st["m"], st.get("mode") or "plain"
+            name, args, kwargs = {"info": ("memory_info", (), {}), "full": ("memory_full_info", (), {}),
+                                  "maps": ("memory_maps", (), {"grouped": False}), "grouped": ("memory_maps", (), {"grouped": True}),
+                                  "pct": ("memory_percent", (st.get("memtype"),), {})}[m]
+            if not mode_ok(m, mode, st.get("memtype")):
+                mode = "plain"
+            if m == "pct":
+                ps._TOTAL_PHYMEM = st.get("total")
+            self.used_modes.append("bind:" + mode)
+            if mode == "oneshot":
+                def f():
+                    with p.oneshot():
+                        return getattr(p, name)(*args, **kwargs)
+                r = fakeproc.outcome(f)
+            elif mode == "twice":
+                r1 = fakeproc.outcome(getattr(p, name), *args, **kwargs)
+                r = fakeproc.outcome(getattr(p, name), *args, **kwargs)
+                if _plain(r1) != _plain(r):
+                    r = {"kind": "exc", "exc": "SecondCallDiffers"}
+            elif mode == "as_dict":
+                r = fakeproc.outcome(p.as_dict, attrs=[name], ad_value=SENT)
+                if r["kind"] == "ok":
+                    d = r["value"]
+                    if list(d) != [name]:
+                        r = {"kind": "exc", "exc": "AsDictKeys%r" % (sorted(d),)}
+                    elif d[name] is SENT:
+                        r = {"kind": "exc", "exc": "ad_value"}
+                    else:
+                        r = {"kind": "ok", "value": d[name]}
+            else:
+                r = fakeproc.outcome(getattr(p, name), *args, **kwargs)
+            if m in ("info", "full"):
+                return _nums(r, PMEM_NAMES if m == "info" else PFULL_NAMES)
+            if m == "maps":
+                return _rows(r, EXT_NAMES, 3)
+            if m == "grouped":
+                return _rows(r, EXT_NAMES[2:], 1)
+            return {"ok": r["value"]} if r["kind"] == "ok" else _exc(r)
+
+        lx.path_exists_strict = exists
+        lx.open_binary = open_binary
+        lx.HAS_PROC_SMAPS_ROLLUP = bool(case["hasRollup"])
+        self.used_modes = []
+        objs, blocks, outs = [], {}, []
+        try:
+            ps.PROCFS_PATH = roots[0] if roots else saved
+            for st in case["steps"]:
+                op = st["op"]
+                if op == "point":
+                    ps.PROCFS_PATH = roots[st["r"]] if st["r"] < len(roots) else os.path.join(base, "no-such-root")
+                    outs.append(None)
+                elif op == "new":
+                    r = fakeproc.outcome(ps.Process, pid)
+                    if r["kind"] == "ok":
+                        objs.append(r["value"])
+                        outs.append({"ok": None})
+                    else:
+                        outs.append(_exc(r))
+                elif op == "enter":
+                    k = st["k"]
+                    if k < len(objs) and k not in blocks:
+                        cm = objs[k].oneshot()
+                        if fakeproc.outcome(cm.__enter__)["kind"] == "ok":
+                            blocks[k] = cm
+                    outs.append(None)
+                elif op == "exit":
+                    cm = blocks.pop(st["k"], None)
+                    if cm is not None:
+                        fakeproc.outcome(cm.__exit__, None, None, None)
+                    outs.append(None)
+                else:
+                    k = st["k"]
+                    outs.append({"noObject": True} if k >= len(objs) else call(objs[k], st))
+        finally:
+            for cm in blocks.values():
+                fakeproc.outcome(cm.__exit__, None, None, None)
+            ps.PROCFS_PATH = saved
+            ps._TOTAL_PHYMEM = None
+            lx.path_exists_strict = self.orig_exists
+            lx.open_binary = self.orig_open
+            lx.HAS_PROC_SMAPS_ROLLUP = self.flag0
+            shutil.rmtree(base, ignore_errors=True)
+        return outs
+
     def run_hist(self, case, hist_files, p, call):
         """the module global psutil._TOTAL_PHYMEM over a history (starts empty)"""
         ps, fp = self.ps, self.fp
@@ -802,6 +1069,97 @@ def compare_hist(res, inp, impl, drv_out, findings=()):
                          note="history step %d, %s: implementation differs from the Lean model%s" % (i, what, md))
             return "model"
     return None
+
+
+def compare_bind(res, inp, impl_outs, drv_out):
+    """family rebind: every answer of an object must be the promised answer for the process of the tree the object was
+    CREATED under (spec), and what the Lean model of the read sites says (model)"""
+    for i, (st, im, d) in enumerate(zip(inp["steps"], impl_outs, drv_out["steps"])):
+        if st["op"] not in ("call", "new"):
+            continue
+        mo, sp = d["model"], d["spec"]
+        what = "Process(pid)" if st["op"] == "new" else "%s%s on object %d [mode %s]" % (
+            st["m"], "(%r)" % st.get("memtype") if st["m"] == "pct" else "", st["k"], st.get("mode") or "plain")
+        mode = st.get("mode")
+        for kind, ref in (("spec", sp), ("model", mo)):
+            if ref is None:
+                continue
+            got = _adnorm(im, ref, mode) if st["op"] == "call" else im
+            if isinstance(ref, dict) and "noObject" in ref or isinstance(got, dict) and "noObject" in got:
+                same = got == ref
+            elif st["op"] == "call" and st["m"] == "pct":
+                same = pct_equal(got, ref)
+            elif st["op"] == "call" and st["m"] == "grouped" and kind == "spec":
+                same = canon_grouped(got) == canon_grouped(ref)
+            else:
+                same = got == ref
+            if not same:
+                res.disagree(kind, inp, {"step": i, "answer": got}, {"step": i, "answer": mo}, {"step": i, "answer": sp},
+                             note="history step %d, %s: implementation differs from %s" % (
+                                 i, what, "the figures promised for the process of the procfs tree the object was created under"
+                                 if kind == "spec" else "the Lean model of the read sites"))
+                return kind
+    return None
+
+
+def bind_stats(c):
+    """(calls made while PROCFS_PATH is not the root the object was created under, … of those towards a tree without the pid,
+    blocks that span a re-pointing)"""
+    cur, objs, away, absent, span, opened = 0, [], 0, 0, 0, {}
+    for st in c["steps"]:
+        if st["op"] == "point":
+            if st["r"] != cur and opened:
+                span += len(opened)
+                opened = {k: True for k in opened}
+            cur = st["r"]
+        elif st["op"] == "new":
+            if cur < len(c["roots"]) and c["roots"][cur] is not None:
+                objs.append(cur)
+        elif st["op"] == "enter":
+            opened[st["k"]] = False
+        elif st["op"] == "exit":
+            opened.pop(st["k"], None)
+        elif st["op"] == "call" and st["k"] < len(objs) and objs[st["k"]] != cur:
+            away += 1
+            if cur >= len(c["roots"]) or c["roots"][cur] is None:
+                absent += 1
+    return away, absent, span
+
+
+def run_bind_cases(ctx, impl, cases, res, tag_stats=True):
+    if not cases:
+        return 0
+    for c in cases:
+        c["pagesize"] = impl.pagesize
+        for r in c["roots"]:
+            if r is not None:
+                r["pagesize"] = impl.pagesize
+    outs = ctx.driver().batch([strip_case(c) for c in cases])
+    for c, o in zip(cases, outs):
+        if "bad" in o:
+            raise InfraError("driver rejected a bind case: %s" % o)
+        im = impl.run_bind(c, o)
+        kind = compare_bind(res, c, im, o)
+        if tag_stats:
+            res.count("family:" + c.get("family", "rebind"))
+            res.count("bind:roots:%d" % len(c["roots"]))
+            if any(r is None for r in c["roots"]):
+                res.count("bind:a-tree-without-the-pid")
+            away, absent, span = bind_stats(c)
+            res.count("bind:calls-while-PROCFS_PATH-points-elsewhere", away)
+            res.count("bind:calls-while-PROCFS_PATH-points-at-a-tree-without-the-pid", absent)
+            res.count("bind:oneshot-blocks-spanning-a-re-pointing", span)
+            for st, v in zip(c["steps"], im):
+                if st["op"] == "call":
+                    res.count("bind:method:" + st["m"])
+                    if isinstance(v, dict) and "exc" in v:
+                        res.count("bind:exc:%s:%s" % (st["m"], v["exc"]))
+                elif st["op"] == "new":
+                    res.count("bind:new:" + ("ok" if v == {"ok": None} else v.get("exc", "?")))
+            for m in impl.used_modes:
+                res.count("mode:" + m)
+            res.case(_key(c), nontrivial=away > 0, sample=None)
+    return len(cases)
 
 
 def strip_case(c):
@@ -1211,7 +1569,11 @@ def correspond(ctx, res):
                     "as_dict(attrs=[name]), the object yielded by process_iter(), second call on the same object, a call on an object "
                     "(shared or process_iter()'s cached one) that answered before while the files held other content}; 35 % of the cases "
                     "also run a history over psutil._TOTAL_PHYMEM (meminfo rewrites / virtual_memory() / memory_percent(t)); "
-                    "non-trivial = at least one mapping or an exception observable; distinct = distinct driver lines")
+                    "family rebind: 2-3 procfs trees each holding (or not) a process with the same pid, histories of psutil.PROCFS_PATH "
+                    "assignments / Process(pid) constructions / oneshot() blocks / method calls in 4 call modes — every answer must describe "
+                    "the process of the tree the object was created under; "
+                    "non-trivial = at least one mapping or an exception observable (rebind: at least one call made while PROCFS_PATH points "
+                    "elsewhere than where the object was created); distinct = distinct driver lines")
         res.extra["import_time_flags"] = {"HAS_PROC_SMAPS": impl.has_smaps, "HAS_PROC_SMAPS_ROLLUP": impl.flag0,
                                           "other_variant_reached_by": "setting psutil._pslinux.HAS_PROC_SMAPS_ROLLUP per case (read at call time)",
                                           "PAGESIZE": impl.pagesize}
@@ -1235,6 +1597,15 @@ def correspond(ctx, res):
         raws, nl = raw_cases(ctx, impl, ctx.n(120, 3500))
         lines += nl
         lines += run_cases(ctx, impl, raw_corpus(impl) + raws, res)
+        # several procfs trees, PROCFS_PATH re-pointed between construction and calls (family rebind)
+        bc = bind_corpus(impl)
+        binds = bc + [gen_bind(ctx.rng, impl.flag0) for _ in range(ctx.n(60, 1500))]
+        for a in range(0, len(binds), 400):
+            lines += run_bind_cases(ctx, impl, binds[a:a + 400], res)
+        res.extra["rebind_exhaustive"] = ("%d enumerated histories: object created under tree 0, PROCFS_PATH re-pointed to tree 1 {another process with "
+                                          "the same pid, no such pid} x HAS_PROC_SMAPS_ROLLUP {on, off} x roll-up of tree 0 {data, ENOENT, ESRCH} x "
+                                          "{a oneshot() block entered before the re-pointing, none}; in each: all 5 methods x 4 call modes, then a second "
+                                          "object created under tree 1 and asked under tree 0" % len(bc))
         res.exhaustive = ("%d enumerated cases: all 18 memtypes (10 valid, 8 invalid) x 6 total-memory configurations; EVERY non-field attribute name of the namedtuple class pfullmem (dir() at run time) + 40 near-misses / foreign field names + 11 non-str arguments x 2 total-memory configurations; all 16 "
                           "permission strings; hasRollup x {data, enoent, esrch} x zombie x {one mapping, empty}; all 8 call modes x "
                           "{memory_info, memory_full_info, memory_maps(False), memory_maps(True), memory_percent of all 10 memtypes + "
@@ -1260,12 +1631,19 @@ def _violates(ctx, impl, case, drv=None, findings=None):
     r = Result()
     c = json.loads(json.dumps(case))
     c["pagesize"] = impl.pagesize
+    for rt in c.get("roots") or []:
+        if rt is not None:
+            rt["pagesize"] = impl.pagesize
     if drv is None:
         o = ctx.driver().batch([strip_case(c)])[0]
     else:
         o = drv.ask(strip_case(c))
     if "bad" in o:
         return None, None
+    if c["op"] == "bind":
+        kind = compare_bind(r, c, impl.run_bind(c, o), o)
+        dis = [d for d in r.disagreements if not d.get("finding")]
+        return kind, (dis[0] if dis else None)
     if c["op"] == "case":
         files = {k: bytes.fromhex(v) for k, v in o["files"].items()}
     else:
@@ -1285,8 +1663,42 @@ def _violates(ctx, impl, case, drv=None, findings=None):
     return kind, (dis[0] if dis else None)
 
 
+def shrink_bind(ctx, d):
+    """fewer steps (a removed `new` renumbers the handles: the result is still a history both sides can run), plain call
+    modes, one mapping per tree"""
+    case = d["input"]
+    impl = Impl(ctx)
+    drv = ctx.driver()
+    try:
+        def fails(c):
+            return _violates(ctx, impl, c, drv)[0] == "spec"
+        steps = ddmin(case["steps"], lambda x: fails(dict(case, steps=x)), max_tests=60)
+        small = dict(case, steps=steps) if fails(dict(case, steps=steps)) else case
+        c2 = dict(small, steps=[dict(st, mode="plain") if st["op"] == "call" else st for st in small["steps"]])
+        if fails(c2):
+            small = c2
+        for i, rt in enumerate(small["roots"]):
+            if rt is not None and len(rt.get("ms") or []) > 1:
+                for keep in ([rt["ms"][0]], [rt["ms"][-1]]):
+                    roots = list(small["roots"])
+                    roots[i] = dict(rt, ms=keep)
+                    roots[i].pop("rollupKV", None)
+                    if fails(dict(small, roots=roots)):
+                        small = dict(small, roots=roots)
+                        break
+        k, dis = _violates(ctx, impl, small, drv)
+        if k == "spec" and dis:
+            return dict(d, input=small, impl=dis["impl"], model=dis["model"], spec=dis["spec"], note=dis["note"] + " (shrunk)")
+    finally:
+        drv.close()
+        impl.close()
+    return d
+
+
 def shrink(ctx, d):
     case = d["input"]
+    if case.get("op") == "bind":
+        return shrink_bind(ctx, d)
     if case.get("op") != "case" or not case.get("ms"):
         return d
     if case.get("modes") and len(case["modes"].get("pct") or []) != len(case.get("pct") or []):
